@@ -35,7 +35,9 @@ def cases_for(chk, p, K, thorough):
         ns.add(chk.rng.below(top))
     if thorough and p <= 40:
         ns.update(range(0, K * p + 2 * T * p + 2 * p))
-    return sorted(ns)
+    # the extracted model runs byte by byte over Coq lists: keep entries below ~100 KB (for large pages the
+    # multi-table boundaries are out of reach; they are covered by the small page sizes and by the proof)
+    return sorted(n for n in ns if n <= 100000)
 
 
 def async_part(chk, lib, thorough):
